@@ -53,11 +53,11 @@ type c22Op struct {
 }
 
 type c22Scenario struct {
-	Seed   uint64     `json:"seed"`
-	Nodes  int        `json:"nodes"` // initial cluster size (1 = single-node stratum with boots)
-	Knobs  node.Knobs `json:"knobs"`
-	Tick   float64    `json:"tick"`
-	Ops    []c22Op    `json:"ops"`
+	Seed  uint64     `json:"seed"`
+	Nodes int        `json:"nodes"` // initial cluster size (1 = single-node stratum with boots)
+	Knobs node.Knobs `json:"knobs"`
+	Tick  float64    `json:"tick"`
+	Ops   []c22Op    `json:"ops"`
 }
 
 var c22BadFile = []string{"nomagic", "empty", "garbage", "header", "truncated"}
@@ -450,7 +450,7 @@ func c22Run(c *core.Ctx, raw json.RawMessage) {
 	}
 	nWritesOK := 0
 	wcount := 0
-	loaded := false  // a load/boot has succeeded
+	loaded := false // a load/boot has succeeded
 	lastKind := "setup"
 	downIdx := 0
 
